@@ -77,11 +77,21 @@ func registerCompress(e *Engine) {
 		if len(dst.C) < lz4Bound(n) {
 			panic(x.unsupported("lz4.CompressBlock stub: destination smaller than CompressBlockBound (outside the modelled contract)"))
 		}
-		lo := (n + 254) / 255 // the LZ4 block format cannot exceed 255:1
-		if lo < 1 {
-			lo = 1
+		// shortest block the contract allows: the LZ4 format cannot exceed 255:1 and needs a few bytes of
+		// sequence overhead; inputs under 12 bytes are stored as literals (token + bytes)
+		lo := n/255 + 12
+		if n+1 < lo {
+			lo = n + 1
 		}
-		k := x.compressedLen(n, lo, lz4Bound(n))
+		hi := lz4Bound(n)
+		if n == 0 {
+			lo, hi = 1, 1 // the empty input is the one-byte block 0x00 (documented in the wrapper, observed natively)
+		}
+		if n == 0 {
+			x.store(&dst.C[0], x.ctx.BV(0, 8))
+			return Tuple{x.intTerm(1), Iface{}}
+		}
+		k := x.compressedLen(n, lo, hi)
 		_, bs := x.newBlock("lz4", sliceBytes(src), k)
 		for i := range bs {
 			x.store(&dst.C[i], bs[i])
@@ -95,8 +105,14 @@ func registerCompress(e *Engine) {
 			return Tuple{x.intTerm(0), Iface{}}
 		}
 		errShort := x.namedConstIface("github.com/pierrec/lz4/v4/internal/lz4errors", "ErrInvalidSourceShortBuffer")
+		if t, ok := src.C[0].V.(*Term); ok && len(src.C) == 1 && t.IsConst() && t.Val == 0 {
+			// pierrec/lz4 v4.0.3 refuses the one-byte block of the empty input whatever the destination size
+			return Tuple{x.intTerm(0), errShort}
+		}
 		if blk := x.recogniseBlock(src.C); blk != nil && blk.alg == "lz4" {
-			if len(dst.C) < len(blk.src) {
+			if len(dst.C) < len(blk.src) || len(blk.src) == 0 {
+				// pierrec/lz4 v4.0.3 refuses the one-byte block of the empty input whatever the destination size
+				// (observed natively; the wrapper's DecompressWithLength works around it)
 				return Tuple{x.intTerm(0), errShort}
 			}
 			for i, b := range blk.src {
